@@ -135,7 +135,7 @@ func (session *HermesSession) Run(workingDir string, args []string, logID string
 		//************ EINGABE AKTUELLES DATUM FÜR DÜNGEEMPFEHLUNG ************
 		//************ INPUT CURRENT DATE FOR FERTILIZATION FORECAST ************
 		PROG := driConfig.VirtualDateFertilizerPrediction
-		DAYOUT := driConfig.AnnualOutputDate + driConfig.EndDate[4:]
+		DAYOUT := dateDigits(driConfig.AnnualOutputDate) + dateYearPart(driConfig.EndDate)
 		OUTDAY, OUTY := g.Datum(DAYOUT)
 		if OUTDAY > 365 {
 			OUTDAY = 365
@@ -738,7 +738,7 @@ func (session *HermesSession) Run(workingDir string, args []string, logID string
 				// the annual output date is a calendar date: its day of year differs between leap and non-leap years
 				outdayYear = 1900 + g.J
 				yearStr := fmt.Sprintf("%04d", outdayYear)
-				OUTDAY, _ = g.Datum(driConfig.AnnualOutputDate + yearStr[4-len(driConfig.EndDate[4:]):])
+				OUTDAY, _ = g.Datum(dateDigits(driConfig.AnnualOutputDate) + yearStr[4-len(dateYearPart(driConfig.EndDate)):])
 			}
 			if g.TAG.Index+1 == OUTDAY {
 				g.AUS[JZ] = g.OUTSUM
